@@ -212,6 +212,13 @@ class Algebra:
         else:
             raise ValueError("No algebra by this name is known.")
 
+    def __eq__(self, other):
+        if other.__class__ is not self.__class__:
+            return NotImplemented
+        return ((self.p, self.q, self.r, self.basis, self.cse, self.graded)
+                == (other.p, other.q, other.r, other.basis, other.cse, other.graded)
+                and tuple(self.signature) == tuple(other.signature))
+
     def __len__(self):
         return 2 ** self.d
 
